@@ -20,7 +20,6 @@ import subprocess  # noqa: E402
 import sys  # noqa: E402
 
 SRC = 'src/pharmpy/'
-VENV_PY = '/venv/bin/python'
 
 # ------------------------------------------------------------------------------------------------
 # clause names (stable keys)
@@ -30,6 +29,7 @@ C_REFL = 'x == x'
 C_SYMM = '== is symmetric'
 C_NE = 'x != y is the negation of x == y'
 C_TRANS = '== is transitive'
+C_EQRAISE = '== between two objects of the class never raises'
 C_FOREIGN = 'x == None and x == object() are False without an exception'
 C_HASHWORKS = 'hash(x) works'
 C_HASH = 'x == y implies hash(x) == hash(y)'
@@ -68,6 +68,10 @@ def _short(v, n=70):
         s = repr(v).replace('\n', ' ')
     except Exception as e:
         s = f'<{type(v).__name__}: repr raised {type(e).__name__}>'
+    if ' at 0x' in s:
+        import re
+
+        s = re.sub(r' at 0x[0-9a-f]+', '', s)
     return s if len(s) <= n else s[: n - 3] + '...'
 
 
@@ -102,7 +106,10 @@ def _perturb(make, base, alts=(), sames=(), extra=()):
     seen = {'base', 'base#2'}
 
     def lab(ov, prefix=''):
-        s = prefix + ','.join(f'{k}={_short(v, 50)}' for k, v in ov.items())
+        if '_label' in ov:
+            s = prefix + ov.pop('_label')
+        else:
+            s = prefix + ','.join(f'{k}={_short(v, 50)}' for k, v in ov.items())
         k, t = 1, s
         while t in seen:
             k += 1
@@ -111,10 +118,14 @@ def _perturb(make, base, alts=(), sames=(), extra=()):
         return t
 
     for ov in alts:
+        ov = dict(ov)
+        label = lab(ov)
         f, v = (next(iter(ov.items())) if len(ov) == 1 else (None, None))
-        ents.append(Entry(lab(ov), (lambda ov=ov: make(**{**base, **ov})), field=f, value=v))
+        ents.append(Entry(label, (lambda ov=ov: make(**{**base, **ov})), field=f, value=v))
     for ov in sames:
-        ents.append(Entry(lab(ov, 'same:'), (lambda ov=ov: make(**{**base, **ov})), same_as='base'))
+        ov = dict(ov)
+        label = lab(ov, 'same:')
+        ents.append(Entry(label, (lambda ov=ov: make(**{**base, **ov})), same_as='base'))
     for label, thunk, same in extra:
         assert label not in seen, label
         seen.add(label)
@@ -212,7 +223,10 @@ def _unary(spec, x, ent, base_obj):
             got = getattr(x, ent.field)
             val = ent.value
             if isinstance(val, str):
-                ok = None if not isinstance(got, str) else got.upper() == val.upper()
+                if got is None:
+                    ok = False
+                else:
+                    ok = None if not isinstance(got, str) else got.upper() == val.upper()
             else:
                 ok = bool(got == val)
             if ok is not None:
@@ -231,11 +245,20 @@ def _unary(spec, x, ent, base_obj):
         if d is not None:
             try:
                 r = spec.from_dict(d)
-                ok = _eq(r, x) and _eq(x, r)
-                det = f'from_dict(to_dict(x)) == x is {ok}'
-                if ok:
-                    hash(r)
-                rec(spec.fid('from_dict'), C_RT, ok, det)
+                try:
+                    ok = _eq(r, x) and _eq(x, r)
+                except Exception as e:
+                    ok = None
+                    rec(spec.fid('__eq__'), C_EQRAISE, False, 'from_dict(to_dict(x)) == x raised ' + _exc(e))
+                if ok is not None:
+                    det = f'from_dict(to_dict(x)) == x is {ok}'
+                    if ok:
+                        try:
+                            hash(r)
+                        except Exception as e:
+                            ok = False
+                            det += '; hash(round trip) raised ' + _exc(e)
+                    rec(spec.fid('from_dict'), C_RT, ok, det)
             except Exception as e:
                 rec(spec.fid('from_dict'), C_RT, False, 'raised ' + _exc(e))
             js = None
@@ -251,7 +274,11 @@ def _unary(spec, x, ent, base_obj):
             if js is not None:
                 try:
                     r = spec.from_dict(json.loads(js))
-                    ok = _eq(r, x) and _eq(x, r)
+                    try:
+                        ok = _eq(r, x) and _eq(x, r)
+                    except Exception as e:
+                        rec(spec.fid('__eq__'), C_EQRAISE, False, 'from_dict(json(to_dict(x))) == x raised ' + _exc(e))
+                        return out
                     det = f'round trip == x is {ok}'
                     if not ok:
                         det += '; differing fields: ' + _diff_fields(r, x)
@@ -272,7 +299,8 @@ def _unary(spec, x, ent, base_obj):
 def _diff_fields(a, b):
     try:
         da, db = a.__dict__, b.__dict__
-        names = [k for k in da if k in db and k != '_hash' and not _safe_eq(da[k], db[k])]
+        skip = ('_hash', '_internals') + (('_name', '_description', '_dataset') if type(a).__name__ == 'Model' else ())
+        names = [k for k in da if k in db and k not in skip and not _safe_eq(da[k], db[k])]
         return ', '.join(f'{k}: {_short(da[k], 40)} vs {_short(db[k], 40)}' for k in names[:4]) or '?'
     except Exception:
         return '?'
@@ -309,7 +337,7 @@ def _pairwise(spec, ents):
                 E[i][j] = _eq(ents[i].obj, ents[j].obj)
             except Exception as e:
                 E[i][j] = None
-                out.append((spec.fid('__eq__'), C_SYMM, False, 'x == y raised ' + _exc(e), i, j))
+                out.append((spec.fid('__eq__'), C_EQRAISE, False, 'x == y raised ' + _exc(e), i, j))
     hashes, dicts = [], []
     for e in ents:
         try:
@@ -321,32 +349,30 @@ def _pairwise(spec, ents):
         except Exception:
             dicts.append(None)
     neq = 0
+    feq, fhash, fdict = spec.fid('__eq__'), spec.fid('__hash__'), spec.fid('to_dict')
     for i in range(n):
+        x = ents[i].obj
         for j in range(n):
-            if i == j or E[i][j] is None:
+            eij = E[i][j]
+            if i == j or eij is None:
                 continue
-            x, y = ents[i].obj, ents[j].obj
-            if E[j][i] is not None:
-                out.append((spec.fid('__eq__'), C_SYMM, E[i][j] == E[j][i],
-                            f'x == y is {E[i][j]} but y == x is {E[j][i]}', i, j))
+            y = ents[j].obj
+            if E[j][i] is not None and eij != E[j][i]:
+                out.append((feq, C_SYMM, False, f'x == y is {eij} but y == x is {E[j][i]}', i, j))
             try:
                 ne = x != y
-                out.append((spec.fid('__eq__'), C_NE, bool(ne) == (not E[i][j]),
-                            f'x == y is {E[i][j]} and x != y is {ne!r}', i, j))
+                if bool(ne) != (not eij):
+                    out.append((feq, C_NE, False, f'x == y is {eij} and x != y is {ne!r}', i, j))
             except Exception as e:
-                out.append((spec.fid('__eq__'), C_NE, False, 'x != y raised ' + _exc(e), i, j))
-            if E[i][j]:
+                out.append((feq, C_NE, False, 'x != y raised ' + _exc(e), i, j))
+            if eij:
                 if i < j:
                     neq += 1
-                if hashes[i] is not None and hashes[j] is not None:
-                    out.append((spec.fid('__hash__'), C_HASH, hashes[i] == hashes[j],
-                                'x == y but hash(x) != hash(y)', i, j))
-                if dicts[i] is not None and dicts[j] is not None:
-                    ok = dicts[i] == dicts[j]
-                    det = ''
-                    if not ok:
-                        det = 'x == y but to_dict differs: ' + _dict_diff(dicts[i], dicts[j])
-                    out.append((spec.fid('to_dict'), C_DICT, ok, det, i, j))
+                if hashes[i] is not None and hashes[j] is not None and hashes[i] != hashes[j]:
+                    out.append((fhash, C_HASH, False, 'x == y but hash(x) != hash(y)', i, j))
+                if dicts[i] is not None and dicts[j] is not None and dicts[i] != dicts[j]:
+                    out.append((fdict, C_DICT, False,
+                                'x == y but to_dict differs: ' + _dict_diff(dicts[i], dicts[j]), i, j))
     # transitivity through equivalence classes
     cls_of = []
     for i in range(n):
@@ -362,12 +388,10 @@ def _pairwise(spec, ents):
                 continue
             if E[i][j] != (cls_of[i] == cls_of[j]):
                 # witness: i ~ rep(i), j ~ rep(j)
-                out.append((spec.fid('__eq__'), C_TRANS, False,
+                out.append((feq, C_TRANS, False,
                             f'{ents[i].label} == {ents[j].label} is {E[i][j]} although '
                             f'{ents[i].label} == {ents[cls_of[i]].label} and {ents[j].label} == '
                             f'{ents[cls_of[j]].label}', i, j))
-            else:
-                out.append((spec.fid('__eq__'), C_TRANS, True, '', i, j))
     return out, neq
 
 
@@ -394,9 +418,14 @@ def _check_spec(spec, tier):
         if ok:
             return
         key = (fid, clause)
+        if key in fails:
+            fails[key]['failing_cases'] += 1
+            if len(fails[key]['also']) < 6:
+                fails[key]['also'].append(case['x'] + (' / ' + case['y'] if case.get('y') else ''))
         if key not in fails:
             fails[key] = {'fid': fid, 'clause': clause, 'detail': f'[{spec.name}] ' + detail,
                           'case': dict(case, cls=spec.name, clause=clause, fid=fid),
+                          'failing_cases': 1, 'also': [],
                           'replay_fn': 'bounded_value_classes_replay'}
 
     ents, bfails = _build(spec, tier)
@@ -706,9 +735,13 @@ def _parameters_entries(tier):
     al = _params_alphabet()
     A, A2, B, C = al['A'], al["A'"], al['B'], al['C']
     base = dict(parameters=(A, B))
-    alts = [{'parameters': ()}, {'parameters': (A,)}, {'parameters': (B,)}, {'parameters': (B, A)},
-            {'parameters': (A2, B)}, {'parameters': (A, C)}, {'parameters': (A, B, C)}, {'parameters': None}]
-    sames = [{'parameters': [A, B]}, {'parameters': Parameters((A, B))}]
+    def L(label, *ps):
+        return {'parameters': ps, '_label': 'parameters=(' + label + ')'}
+
+    alts = [{'parameters': ()}, L('A', A), L('B', B), L('B,A', B, A), L("A',B", A2, B), L('A,C', A, C),
+            L('A,B,C', A, B, C), {'parameters': None}]
+    sames = [{'parameters': [A, B], '_label': 'parameters=[A,B]'},
+             {'parameters': Parameters((A, B)), '_label': 'parameters=Parameters object'}]
     extra = [
         ('ctor', lambda: Parameters((A, B)), 'base'),
         ('generator', lambda: Parameters.create(p for p in (A, B)), 'base'),
@@ -862,12 +895,17 @@ def _datainfo_entries(tier):
     cdv3 = cdv.replace(unit='mg')
     csex = ColumnInfo.create('SEX', type='covariate', scale='nominal', categories={'1': 'male', '2': 'female'})
     base = dict(columns=(cid, ctime, cdv), path='/nonexistent/data.csv', separator=',', missing_data_token='-99')
-    alts = [{'columns': ()}, {'columns': None}, {'columns': (cid,)}, {'columns': (cid, ctime)},
-            {'columns': (ctime, cid, cdv)}, {'columns': (cid, ctime, cdv2)}, {'columns': (cid, ctime, cdv3)},
-            {'columns': (cid, ctime, cdv, csex)}, {'columns': ['ID', 'TIME', 'DV']}, {'columns': [cid, 'TIME', cdv]},
+    alts = [{'columns': ()}, {'columns': None}, {'columns': (cid,), '_label': 'columns=(ID)'},
+            {'columns': (cid, ctime), '_label': 'columns=(ID,TIME)'},
+            {'columns': (ctime, cid, cdv), '_label': 'columns=(TIME,ID,DV)'},
+            {'columns': (cid, ctime, cdv2), '_label': 'columns=(ID,TIME,DV with descriptor=None)'},
+            {'columns': (cid, ctime, cdv3), '_label': 'columns=(ID,TIME,DV with unit=mg)'},
+            {'columns': (cid, ctime, cdv, csex), '_label': 'columns=(ID,TIME,DV,SEX)'},
+            {'columns': ['ID', 'TIME', 'DV']}, {'columns': [cid, 'TIME', cdv], '_label': 'columns=[ID,"TIME",DV]'},
             {'path': None}, {'path': '/nonexistent/other.csv'}, {'separator': '\t'}, {'separator': r'\s+'},
             {'missing_data_token': '0'}, {'missing_data_token': None}]
-    sames = [{'columns': [cid, ctime, cdv]}, {'path': Path('/nonexistent/data.csv')}, {'missing_data_token': -99}]
+    sames = [{'columns': [cid, ctime, cdv], '_label': 'columns=[ID,TIME,DV]'}, {'path': Path('/nonexistent/data.csv')},
+             {'missing_data_token': -99}]
     extra = [
         ('ctor', lambda: DataInfo((cid, ctime, cdv), Path('/nonexistent/data.csv'), ',', '-99'), 'base'),
         ('replace()', lambda: DataInfo.create(**base).replace(), 'base'),
@@ -1127,13 +1165,17 @@ def _statements_entries(tier):
     cs_other_order = _cs_build('PCD', tuple(reversed(_CS_FLOWS)))
     cs_diff = _cs_build('DCP', _CS_FLOWS, kind='rate')
     base = dict(statements=(a1, a2, cs, a3, a4))
-    alts = [{'statements': ()}, {'statements': None}, {'statements': (a1,)}, {'statements': (cs,)},
-            {'statements': (a2, a1, cs, a3, a4)}, {'statements': (a1, a2b, cs, a3, a4)},
-            {'statements': (a1, a2, cs_diff, a3, a4)}, {'statements': (a1, a2, a3, a4)},
-            {'statements': (a1, a2, cs, a3)}, {'statements': (a1, a2, cs, a3, a4, a4)}]
-    sames = [{'statements': [a1, a2, cs, a3, a4]}, {'statements': Statements((a1, a2, cs, a3, a4))},
-             {'statements': (a1, a2, cs_other_order, a3, a4)}, {'statements': (a1, a2, cs.replace(), a3, a4)},
-             {'statements': (Assignment.create('CL', 'exp(ETA1)*THETA1'), a2, cs, a3, a4)}]
+    def L(label, *stats):
+        return {'statements': stats, '_label': 'statements=(' + label + ')'}
+
+    alts = [{'statements': ()}, {'statements': None}, L('CL', a1), L('ODE', cs), L('V1,CL,ODE,F,Y', a2, a1, cs, a3, a4),
+            L('CL,V1 changed,ODE,F,Y', a1, a2b, cs, a3, a4), L('CL,V1,ODE other rate,F,Y', a1, a2, cs_diff, a3, a4),
+            L('CL,V1,F,Y', a1, a2, a3, a4), L('CL,V1,ODE,F', a1, a2, cs, a3), L('CL,V1,ODE,F,Y,Y', a1, a2, cs, a3, a4, a4)]
+    sames = [{'statements': [a1, a2, cs, a3, a4], '_label': 'list'},
+             {'statements': Statements((a1, a2, cs, a3, a4)), '_label': 'Statements object'},
+             L('CL,V1,ODE built in another order,F,Y', a1, a2, cs_other_order, a3, a4),
+             L('CL,V1,ODE.replace(),F,Y', a1, a2, cs.replace(), a3, a4),
+             L('CL commuted,V1,ODE,F,Y', Assignment.create('CL', 'exp(ETA1)*THETA1'), a2, cs, a3, a4)]
     extra = [
         ('ctor list', lambda: Statements([a1, a2, cs, a3, a4]), 'base'),
         ('generator', lambda: Statements.create(s for s in (a1, a2, cs, a3, a4)), 'base'),
@@ -1193,9 +1235,13 @@ def _varhier_entries(tier):
     lv = _levels()
     R, r, O, o, C = lv['R'], lv['r'], lv['O'], lv['o'], lv['C']
     base = dict(levels=(R, O))
-    alts = [{'levels': (R,)}, {'levels': (O, R)}, {'levels': (r, o)}, {'levels': (C, R, O)}, {'levels': (R, C)},
+    def L(label, *levels):
+        return {'levels': levels, '_label': 'levels=(' + label + ')'}
+
+    alts = [L('IIV*', R), L('IOV,IIV*', O, R), L('IIV,IOV*', r, o), L('CENTER,IIV*,IOV', C, R, O), L('IIV*,CENTER', R, C),
             {'levels': None}]
-    sames = [{'levels': [R, O]}, {'levels': VariabilityHierarchy((R, O))}]
+    sames = [{'levels': [R, O], '_label': 'levels=[IIV*,IOV]'},
+             {'levels': VariabilityHierarchy((R, O)), '_label': 'levels=VariabilityHierarchy'}]
     extra = [('ctor', lambda: VariabilityHierarchy((R, O)), 'base'),
              ('add', lambda: VariabilityHierarchy.create((R,)) + O, 'base'),
              ('radd', lambda: R + VariabilityHierarchy((O,)), 'base'),
@@ -1337,10 +1383,15 @@ def _rvs_entries(tier):
     other_eta = VariabilityHierarchy.create([VariabilityLevel.create('IIV', True, 'ID')])
     other_eps = VariabilityHierarchy.create([VariabilityLevel.create('RUV', True, 'ID')])
     base = dict(dists=(N1, J23, E), eta_levels=None, epsilon_levels=None)
-    alts = [{'dists': ()}, {'dists': None}, {'dists': (J23, N1, E)},
-            {'dists': (N1b, J23, E)}, {'dists': (N1, J23)}, {'dists': (J12, E)}, {'dists': (N1, N2, E)},
-            {'eta_levels': other_eta}, {'epsilon_levels': other_eps}]
-    sames = [{'dists': [N1, J23, E]}, {'eta_levels': dflt_eta}, {'epsilon_levels': dflt_eps}]
+    def L(label, *dists):
+        return {'dists': dists, '_label': 'dists=(' + label + ')'}
+
+    alts = [{'dists': ()}, {'dists': None}, L('J23,N1,E', J23, N1, E), L("N1',J23,E", N1b, J23, E), L('N1,J23', N1, J23),
+            L('J12,E', J12, E), L('N1,N2,E', N1, N2, E), {'eta_levels': other_eta, '_label': 'eta_levels=(IIV)'},
+            {'epsilon_levels': other_eps, '_label': 'epsilon_levels=(RUV grouped by ID)'}]
+    sames = [{'dists': [N1, J23, E], '_label': 'dists=[N1,J23,E]'},
+             {'eta_levels': dflt_eta, '_label': 'eta_levels=explicit default'},
+             {'epsilon_levels': dflt_eps, '_label': 'epsilon_levels=explicit default'}]
     extra = [('ctor', lambda: RandomVariables((N1, J23, E), dflt_eta, dflt_eps), 'base'),
              ('add', lambda: RandomVariables.create((N1,)) + J23 + E, 'base'),
              ('add list', lambda: RandomVariables.create((N1,)) + [J23, E], 'base'),
@@ -1396,9 +1447,11 @@ def _rvs_wf(tier):
 
     def single_dup():
         from pharmpy.model import JointNormalDistribution
-        from pharmpy.basic import Matrix
 
-        d = JointNormalDistribution(('E1', 'E1'), 'IIV', Matrix([0, 0]), Matrix([['A', 'B'], ['B', 'C']]))
+        try:
+            d = JointNormalDistribution.create(('E1', 'E1'), 'IIV', [0, 0], [['A', 'B'], ['B', 'C']])
+        except ValueError:
+            return [(fidc, C_WF_NAMES, True, '')]
         return _names_unique_result(fidc, C_WF_NAMES, 'RandomVariables.create(Joint(E1, E1))',
                                     lambda: RandomVariables.create(d), ['E1', 'E1'])
 
@@ -1525,10 +1578,13 @@ def _execsteps_entries(tier):
                                derivatives=[[Expr.symbol('ETA1')]])
     sim = SimulationStep.create(n=3)
     base = dict(steps=(s1, s2))
-    alts = [{'steps': ()}, {'steps': None}, {'steps': (s1,)}, {'steps': (s2, s1)}, {'steps': (s1b, s2)},
-            {'steps': (s1, sim)}, {'steps': (sim,)}, {'steps': (s1, s2, sim)}, {'steps': (s1, s1)}]
-    sames = [{'steps': [s1, s2]}, {'steps': (EstimationStep.create('foce', interaction=True, tool_options={'A': 1}),
-                                             s2)}]
+    def L(label, *steps):
+        return {'steps': steps, '_label': 'steps=(' + label + ')'}
+
+    alts = [{'steps': ()}, {'steps': None}, L('FOCE', s1), L('IMP,FOCE', s2, s1), L('FOCE no interaction,IMP', s1b, s2),
+            L('FOCE,SIM', s1, sim), L('SIM', sim), L('FOCE,IMP,SIM', s1, s2, sim), L('FOCE,FOCE', s1, s1)]
+    sames = [{'steps': [s1, s2], '_label': 'steps=[FOCE,IMP]'},
+             L('foce,IMP', EstimationStep.create('foce', interaction=True, tool_options={'A': 1}), s2)]
     extra = [('ctor', lambda: ExecutionSteps((s1, s2)), 'base'),
              ('add', lambda: ExecutionSteps.create((s1,)) + s2, 'base'),
              ('add list', lambda: ExecutionSteps.create((s1,)) + [s2], 'base'),
@@ -1849,14 +1905,16 @@ def bounded_value_classes(tier, only=None):
     return {
         'cases': cases,
         'nontrivial': nontriv,
-        'bound': 'per value class (25 classes): a base argument set plus one-field perturbations and same-value '
-                 'rebuilds (CompartmentalSystem: all 6 compartment insertion orders x '
-                 + ('5' if tier == 'quick' else 'all 24') + ' flow insertion orders; Expr: all unary/binary '
-                 'combinations of 7 atoms' + ('' if tier == 'quick' else ' to depth 2') + '; Model: pheno + 30 '
-                 'one-step variants), all ordered pairs per class; well-formedness: Parameter.create over an '
-                 '8x7x8 (lower, init, upper) grid, all sequences of <=' + ('3' if tier == 'quick' else '4')
+        'bound': 'per value class (25 classes): a base argument set plus every one-field perturbation and same-value '
+                 'rebuild listed in the class spec (CompartmentalSystem: all 6 compartment insertion orders x '
+                 + ('5' if tier == 'quick' else 'all 24') + ' flow insertion orders of a 3-compartment system; Expr: '
+                 'all 6 unary / 5 binary operations over 7 atoms' + ('' if tier == 'quick' else ' and all binary '
+                 'operations of a unary result with an atom') + '; Model: pheno example model + 32 variants made by '
+                 'one transformation or replace()), all ordered pairs within each class; well-formedness: '
+                 'Parameter.create over the full ' + ('8x7x8' if tier == 'quick' else '11x10x11') + ' (lower, init, '
+                 'upper) grid incl. inf/nan/None, all sequences of <=' + ('3' if tier == 'quick' else '4')
                  + ' elements over 4-6 element alphabets for Parameters, RandomVariables, VariabilityHierarchy '
-                 'and Model statements, all operator combinations of <=2-element collections',
+                 'and Model statements, all +/radd/replace combinations of collections with <=2 elements',
         'samples': samples,
         'per_class_cases': ' '.join(per),
         'fails': fails,
@@ -1914,3 +1972,200 @@ def bounded_value_classes_replay(rp):
                     return False, detail
         return True, 'ok'
     return True, 'case not found in the corpus'
+
+
+# ------------------------------------------------------------------------------------------------
+# ModelHash
+# ------------------------------------------------------------------------------------------------
+C_H_SAME = 'models with the same content (differing only in name, description, paths or build order) have the same key'
+C_H_DIFF = 'models that differ in a parameter, random variable, statement, execution step or data value have different keys'
+C_H_PROC = 'the key computed in a fresh interpreter (PYTHONHASHSEED=0, 1, random) equals the in-process key'
+C_H_STABLE = 'computing the key twice gives the same key and leaves the model equal to itself'
+_SEEDS = ('0', '1', 'random')
+
+
+def _hash_variants():
+    """label -> (thunk, content class).  Two variants have the same mathematical content and dataset
+    iff they are in the same content class (by construction)."""
+    from pharmpy import modeling as mo
+
+    mv = _model_variants()
+    m = _pheno
+
+    def both(first, second):
+        vals = {'POP_CL': 0.01, 'POP_VC': 1.5}
+        return mo.set_initial_estimates(mo.set_initial_estimates(m(), {first: vals[first]}), {second: vals[second]})
+
+    v = {}
+    for label in ('pheno', 'pheno:parsed again', 'pheno:generic', 'pheno:replace()', 'pheno:name', 'pheno:description',
+                  'pheno:datainfo path', 'pheno:dataset copy'):
+        v[label] = (mv[label][0], 'pheno')
+    v['pheno:name and description'] = (lambda: m().replace(name='x', description='y'), 'pheno')
+    v['init'] = (mv['init'][0], 'init')
+    v['init:two steps'] = (mv['init:two steps'][0], 'init')
+    v['two inits:at once'] = (lambda: mo.set_initial_estimates(m(), {'POP_CL': 0.01, 'POP_VC': 1.5}), 'two inits')
+    v['two inits:dict in other order'] = (lambda: mo.set_initial_estimates(m(), {'POP_VC': 1.5, 'POP_CL': 0.01}),
+                                          'two inits')
+    v['two inits:CL then VC'] = (lambda: both('POP_CL', 'POP_VC'), 'two inits')
+    v['two inits:VC then CL'] = (lambda: both('POP_VC', 'POP_CL'), 'two inits')
+    v['peripheral'] = (mv['peripheral'][0], 'peripheral')
+    v['peripheral:odes built in reverse order'] = (mv['peripheral:odes built in reverse order'][0], 'peripheral')
+    v['tool options'] = (mv['tool options'][0], 'tool options')
+    v['tool options:other order'] = (mv['tool options:other order'][0], 'tool options')
+    for label in ('fix', 'lower bound', 'absorption', 'error model', 'statement', 'remove iiv', 'joint iiv',
+                  'estimation method', 'estimation option', 'estimation added', 'dataset cell', 'dataset column',
+                  'dependent variables', 'value type'):
+        v[label] = (mv[label][0], label)
+    return v
+
+
+def _hash_keys(labels=None):
+    from pharmpy.workflows.hashing import ModelHash
+
+    out = {}
+    for label, (thunk, _) in _hash_variants().items():
+        if labels is not None and label not in labels:
+            continue
+        try:
+            out[label] = str(ModelHash(thunk()))
+        except Exception as e:
+            out[label] = 'ERROR ' + _exc(e)
+    return out
+
+
+def _hash_keys_subprocess_start(seed, labels=None):
+    root = os.path.dirname(os.path.dirname(os.path.abspath(__file__)))
+    env = dict(os.environ)
+    env['PYTHONPATH'] = root + os.pathsep + env.get('PYTHONPATH', '')
+    if seed == 'random':
+        env.pop('PYTHONHASHSEED', None)
+        env['PYTHONHASHSEED'] = 'random'
+    else:
+        env['PYTHONHASHSEED'] = seed
+    code = ('import warnings; warnings.filterwarnings("ignore"); import json; import contracts.b_structs as b; '
+            f'print("KEYS=" + json.dumps(b._hash_keys({labels!r})))')
+    return subprocess.Popen([sys.executable, '-W', 'ignore', '-c', code], cwd=root, env=env,
+                            stdout=subprocess.PIPE, stderr=subprocess.PIPE, text=True)
+
+
+def _hash_keys_subprocess_finish(proc):
+    so, se = proc.communicate(timeout=1200)
+    for line in so.splitlines():
+        if line.startswith('KEYS='):
+            return json.loads(line[5:])
+    return {'__error__': (se or so)[-300:]}
+
+
+def bounded_modelhash(tier):
+    from pharmpy.workflows.hashing import ModelHash
+
+    fid = _fid(ModelHash, '__init__')
+    variants = _hash_variants()
+    procs = {seed: _hash_keys_subprocess_start(seed) for seed in _SEEDS}
+    keys = _hash_keys()
+    fails = {}
+
+    def note(clause, detail, case):
+        if clause in fails:
+            fails[clause]['failing_cases'] += 1
+            if len(fails[clause]['also']) < 6:
+                fails[clause]['also'].append(detail[:120])
+            return
+        fails[clause] = {'fid': fid, 'clause': clause, 'detail': detail, 'case': dict(case, clause=clause),
+                         'failing_cases': 1, 'also': [], 'replay_fn': 'bounded_modelhash_replay'}
+
+    cases = nontriv = 0
+    labels = list(variants)
+    for label in labels:
+        cases += 1
+        nontriv += 1
+        if keys[label].startswith('ERROR') or len(keys[label]) != 43:
+            note(C_H_STABLE, f'ModelHash({label}) failed: {keys[label]}', {'kind': 'stable', 'x': label})
+            continue
+        ok, det = _hash_stable(label)
+        if not ok:
+            note(C_H_STABLE, det, {'kind': 'stable', 'x': label})
+    for i, a in enumerate(labels):
+        for b in labels[i + 1:]:
+            cases += 1
+            nontriv += 1
+            same_content = variants[a][1] == variants[b][1]
+            same_key = keys[a] == keys[b]
+            if same_content and not same_key:
+                note(C_H_SAME, f'{a} and {b} have the same content but keys {keys[a]} and {keys[b]}',
+                     {'kind': 'pair', 'x': a, 'y': b})
+            if not same_content and same_key:
+                note(C_H_DIFF, f'{a} and {b} differ in content but both have key {keys[a]}',
+                     {'kind': 'pair', 'x': a, 'y': b})
+    for seed in _SEEDS:
+        sub = _hash_keys_subprocess_finish(procs[seed])
+        for label in labels:
+            cases += 1
+            nontriv += 1
+            if sub.get(label) != keys[label]:
+                note(C_H_PROC, f'{label}: in-process key {keys[label]}, fresh interpreter with PYTHONHASHSEED={seed} '
+                     f'gives {sub.get(label, sub.get("__error__"))}', {'kind': 'seed', 'x': label, 'seed': seed})
+    classes = sorted({c for _, c in variants.values()})
+    return {
+        'cases': cases,
+        'nontrivial': nontriv,
+        'bound': f'pheno example model and {len(labels) - 1} one-step variants in {len(classes)} content classes '
+                 '(9 renamings/re-parsings/copies of pheno, 2+4 orders of setting initial estimates, ODE system '
+                 'rebuilt in reverse insertion order, tool options in two dict orders, 14 single content changes), '
+                 'all pairs; every key recomputed in 3 fresh interpreters (PYTHONHASHSEED=0, 1, random)',
+        'samples': [f'{k}: {keys[k]}' for k in labels[:3]],
+        'fails': list(fails.values()),
+    }
+
+
+def _hash_stable(label):
+    from pharmpy.workflows.hashing import ModelHash
+
+    thunk = _hash_variants()[label][0]
+    model = thunk()
+    before = model.dataset.copy() if model.dataset is not None else None
+    d0 = json.dumps(_norm_json(model))
+    k1 = str(ModelHash(model))
+    k2 = str(ModelHash(model))
+    k3 = str(ModelHash(thunk()))
+    if not (k1 == k2 == k3):
+        return False, f'{label}: keys {k1}, {k2} (same object again), {k3} (built again)'
+    if before is not None and not before.equals(model.dataset):
+        return False, f'{label}: ModelHash modified the dataset of its argument'
+    if json.dumps(_norm_json(model)) != d0:
+        return False, f'{label}: ModelHash modified its argument'
+    return True, 'ok'
+
+
+def _norm_json(model):
+    from pharmpy.model import Model
+
+    try:
+        return json.loads(json.dumps(Model.to_dict(model), default=repr))
+    except Exception as e:
+        return 'to_dict failed ' + _exc(e)
+
+
+def bounded_modelhash_replay(rp):
+    case = rp['case']
+    variants = _hash_variants()
+    if case['kind'] == 'stable':
+        keys = _hash_keys([case['x']])
+        if keys[case['x']].startswith('ERROR'):
+            return False, keys[case['x']]
+        ok, det = _hash_stable(case['x'])
+        return (True, 'ok') if ok else (False, det)
+    if case['kind'] == 'pair':
+        a, b = case['x'], case['y']
+        keys = _hash_keys([a, b])
+        same_content = variants[a][1] == variants[b][1]
+        if same_content != (keys[a] == keys[b]):
+            return False, f'{a}: {keys[a]}, {b}: {keys[b]}, same content: {same_content}'
+        return True, 'ok'
+    label, seed = case['x'], case['seed']
+    proc = _hash_keys_subprocess_start(seed, [label])
+    keys = _hash_keys([label])
+    sub = _hash_keys_subprocess_finish(proc)
+    if sub.get(label) != keys[label]:
+        return False, f'{label}: in-process {keys[label]}, fresh interpreter (PYTHONHASHSEED={seed}) {sub}'
+    return True, 'ok'
